@@ -325,6 +325,8 @@ def run_shipped(ctx, case):
         es, ee = emmon.mol_edges(a), emmon.mol_edges(b)
         seed = ctx.libseed('shipped', case['i'])
         types = [None, (0, 1), (0, 1, 2)][(case['i'] // 3) % 3]
+        if types is not None and 2 in types and min(len(a), len(b)) < 2:
+            types = (0, 1)      # single-atom moves are only in scope when the mobile molecule has at least two atoms
         w = {'pair': label, 'types': types, 'seed': seed}
         drive(ctx, a, b, es, ee, len(es) > len(a) - 1, len(ee) > len(b) - 1, None, 'none', types, True, 1, seed, w,
               ('shipped', label, types))
